@@ -442,6 +442,34 @@ func TestRandomLongSequences(t *testing.T) {
 	})
 }
 
+// A specification of thousands of declarations needs hundreds of thousands of driver steps; nothing bounds them.
+func TestVeryLongSpecification(t *testing.T) {
+	rec.Begin(t)
+	rec.Rule(rule + ruleMore)
+	if rec.Shard() != 0 {
+		t.Skip("seed independent: shard 0 only")
+	}
+	for _, n := range []int{7000, 20000} {
+		kinds := []string{"grammar", "IDENT", ";"}
+		for i := 0; i < n; i++ {
+			kinds = append(kinds, "IDENT", "=", []string{"IDENT", "STRING", "TOKEN"}[i%3])
+			if i%2 == 0 {
+				kinds = append(kinds, "|", "IDENT")
+			}
+			kinds = append(kinds, ";")
+		}
+		acc, _, err := checkSequence(kinds, true)
+		rec.Case(fmt.Sprintf("long:%d", n), true, "very_long_specification", fmt.Sprintf("deep_accepted=%v", acc))
+		if err != nil {
+			msg := err.Error()
+			if len(msg) > 1200 {
+				msg = msg[:600] + " ... " + msg[len(msg)-600:]
+			}
+			rec.Fail(t, "kinds", input{Kinds: kinds}, "%s (a specification of %d declarations)", msg, n)
+		}
+	}
+}
+
 // Deep and long sentences: the grammar bounds neither the nesting depth of brackets nor the number of alternatives or
 // juxtaposed operands, so a driver stack, a recursion or a fixed-size buffer must not either.
 func TestDeepAndLongSequences(t *testing.T) {
